@@ -37,7 +37,7 @@ type Case struct {
 	Kind      string    `json:"kind"`
 	Mediatype string    `json:"mediatype"`
 	Input     string    `json:"input"`
-	Entry     string    `json:"entry"` // Bytes String MinifyMimetype Reader Writer ResponseWriter Middleware MiddlewareWithError
+	Entry     string    `json:"entry"`      // Bytes String MinifyMimetype Reader Writer ResponseWriter Middleware MiddlewareWithError
 	Chunks    []int     `json:"chunks"`     // sizes of consecutive chunks (cycled; 0 = empty chunk)
 	ReadSizes []int     `json:"read_sizes"` // consumer buffer sizes (Reader entry)
 	EOFWith   bool      `json:"eof_with_data"`
